@@ -865,29 +865,41 @@ class Run:
 
     # ---- views used by oracles
     def exchanges(self, res):
-        """Split the history slice of one op into exchanges:
-        [{'serial', 'tx': summary, 'rx': [dgram ids consumed], 'none': bool}]."""
-        out = []
-        s = res["s"]
-        inside = False
-        cur = None
-        for ev in self.sim.hist:
-            if ev[0] == "call" and ev[1] == s and ev[2] == res["i"]:
-                inside = True
-                continue
-            if ev[0] == "ret" and ev[1] == s and ev[2] == res["i"]:
-                break
-            if not inside:
-                continue
-            if ev[0] == "tx" and ev[1] == s:
-                cur = {"serial": ev[2], "key": self.key_of.get((s, ev[2])), "t": ev[3], "hex": ev[4], "send_err": ev[5], "rx": [], "rx_t": [], "none": False}
-                out.append(cur)
-            elif ev[0] == "rx" and ev[1] == s and cur is not None:
-                cur["rx"].append(ev[3])
-                cur["rx_t"].append(ev[2])
-            elif ev[0] == "rx-none" and ev[1] == s and cur is not None:
-                cur["none"] = True
-        return out
+        """The exchanges of one op: [{'serial', 'key', 't', 'hex', 'send_err', 'rx': [dgram ids consumed],
+        'rx_t', 'none'}], one per datagram the op put on the wire. Built for all ops in one pass."""
+        idx = getattr(self, "_ex_index", None)
+        if idx is None or self._ex_len != len(self.sim.hist):
+            idx = {}
+            cur_op = {}  # session -> (i, list)
+            cur_ex = {}  # session -> current exchange dict
+            for ev in self.sim.hist:
+                k = ev[0]
+                if k == "call":
+                    lst = idx.setdefault((ev[1], ev[2]), [])
+                    cur_op[ev[1]] = lst
+                    cur_ex[ev[1]] = None
+                elif k == "ret":
+                    cur_op[ev[1]] = None
+                    cur_ex[ev[1]] = None
+                elif k == "tx":
+                    s = ev[1]
+                    lst = cur_op.get(s)
+                    if lst is not None:
+                        ex = {"serial": ev[2], "key": self.key_of.get((s, ev[2])), "t": ev[3], "hex": ev[4], "send_err": ev[5], "rx": [], "rx_t": [], "none": False}
+                        lst.append(ex)
+                        cur_ex[s] = ex
+                elif k == "rx":
+                    ex = cur_ex.get(ev[1])
+                    if ex is not None:
+                        ex["rx"].append(ev[3])
+                        ex["rx_t"].append(ev[2])
+                elif k == "rx-none":
+                    ex = cur_ex.get(ev[1])
+                    if ex is not None:
+                        ex["none"] = True
+            self._ex_index = idx
+            self._ex_len = len(self.sim.hist)
+        return idx.get((res["s"], res["i"]), [])
 
 
 def execute(plan):
